@@ -159,7 +159,10 @@ def _dirs(g):
     if isinstance(g, (tuple, list)):
         k = g[1]
         return {k: [layout.line_directive(1, f"r{k}.h", flags=(1,), keyword=False)]}
-    return {g: [layout.line_directive(100 + 7 * g, f"inc{g}.h", flags=(1,), keyword=(g % 2 == 0))]}
+    # every third name contains an escaped quote and a blank (what cpp emits
+    # for such a file): the name is everything between the outer quotes
+    name = f'in\\"c {g}.h' if g % 3 == 2 else f"inc{g}.h"
+    return {g: [layout.line_directive(100 + 7 * g, name, flags=(1,), keyword=(g % 2 == 0))]}
 
 
 def pragma_respacings(toks):
